@@ -134,4 +134,21 @@ PROPS = {
             {"name": "stress", "run": "TestBindStress", "kind": "plain", "shards": {Q: 2, T: 16}, "env": {"VERIF_ROUNDS": {Q: 300, T: 3000}}},
         ],
     },
+    "C03": {
+        "pkg": "c03",
+        "rule": ("rapid state machine over 3 peers with identical numbering and 4 local server features (one writable and one read-only list "
+                 "function each): random writes (any peer, any client feature, any server, writable or read-only function, every filter shape, "
+                 "ack on/off), bind-then-write and unbind-then-write composites (valid, from a foreign peer, for another client, device "
+                 "omitted), disconnect+reconnect-then-write, entity-removed(-and-re-added)-then-write, subscriptions, local SetData. Each "
+                 "write is judged against what the binding registry and the announced operations report immediately before it: unauthorised "
+                 "=> data unchanged, no notify on any connection, no data-change event, exactly one error result; authorised => success "
+                 "with data = fold of the write, one notify per subscription, one event, result iff ack - or an error with no effect at all "
+                 "(never for a full write). Non-trivial: a peer has both an accepted and a rejected write in the history. Distinct by "
+                 "operation sequence with outcomes."),
+        "assumptions": ["the registry's own correctness is C09/C10's subject: the gate is judged relative to HasLocalFeatureRemoteBinding (cross-checked with Bindings(peer))",
+                        "no message is injected on a removed connection (cannot happen in SHIP); disappearance of the device is tested by reconnecting the same SKI"],
+        "runs": [
+            {"name": "gate", "run": "TestWriteGate", "kind": "rapid", "checks": {Q: 2400, T: 80000}, "shards": {Q: 4, T: 16}, "steps": {Q: 20, T: 40}},
+        ],
+    },
 }
